@@ -159,13 +159,19 @@ type c10Case struct {
 	// 34-byte CIDv0 and 36-byte CIDv1, size estimate next to the auto-shard
 	// threshold)
 	Variant string `json:"variant,omitempty"`
+	// Hasher: multihash code of the name hasher for sharded builds (0 = murmur3-x64-64)
+	Hasher uint64 `json:"hasher,omitempty"`
 }
 
 func (c c10Case) String() string {
 	if c.Kind == "file" {
 		return "file " + c.File.String()
 	}
-	return fmt.Sprintf("%s F=%d %q permute=%v %s", c.Kind, c.Fanout, trimNames(c.Names), c.Permute, c.Variant)
+	h := ""
+	if c.Hasher != 0 {
+		h = fmt.Sprintf(" hasher=0x%x", c.Hasher)
+	}
+	return fmt.Sprintf("%s F=%d %q permute=%v %s%s", c.Kind, c.Fanout, trimNames(c.Names), c.Permute, c.Variant, h)
 }
 
 // entries builds the entry list of a directory case.
@@ -242,7 +248,11 @@ func (c c10Case) body(x *xplore.Ctx) string {
 		withMapOrder(x, nil, func() {
 			switch c.Kind {
 			case "sharded":
-				root, sz, err = gen.OursSharded(s, c.Fanout, es)
+				if c.Hasher != 0 {
+					root, sz, err = gen.OursShardedHasher(s, c.Fanout, c.Hasher, es)
+				} else {
+					root, sz, err = gen.OursSharded(s, c.Fanout, es)
+				}
 			case "plain":
 				root, sz, err = gen.OursDir(s, es)
 			case "quick":
@@ -346,6 +356,15 @@ func runC10(r *core.Run) {
 		cases = append(cases, c10Case{Kind: "quick", Names: names})
 	}
 	cases = append(cases, c10Case{Kind: "recursive"})
+	// other name hashers the builder accepts: sha2-256, sha2-512, identity-free blake? (registered ones only)
+	for _, h := range []uint64{0x12, 0x13} {
+		for _, mask := range []int{3, 7, 0b101101, 63} {
+			names := gen.SubsetOf(u, mask)
+			for _, f := range []int{8, 256} {
+				cases = append(cases, c10Case{Kind: "sharded", Fanout: f, Names: names, Permute: true, Hasher: h})
+			}
+		}
+	}
 	for mask := 3; mask < 1<<uint(len(u)); mask += 4 {
 		names := gen.SubsetOf(u, mask)
 		cases = append(cases, c10Case{Kind: "sharded", Fanout: 8, Names: names, Permute: len(names) <= 4, Variant: "shared-targets"})
